@@ -12,6 +12,7 @@ from collections import defaultdict
 from vlib import env, gens, refcat
 
 HOSTILE = list("()[]{}<>&'\"/\\|,.;:-_*=#!?%$@^~`+")
+SPECIAL = ['->-', '-<-', '-a>b-', '<->', '()', '{}', '[]', '){', 'f(x)', ':-)', '1)a', 'km/', 'a/b/', '<b>', '-', '--', '&', '&amp;', '_(', '*']
 BRACKET_WORDS = ['(', ')', '[', ']', '{', '}', '-LRB-', '-RRB-', '-LCB-', '-RCB-', '-LSB-', '-RSB-']
 CJK = list('日本語の文章東京は晴れ猫犬')
 COMBINING = ['é', 'ñ', 'ä']
@@ -22,7 +23,9 @@ def hostile_token(rng, domain='any'):
     """printable non-blank text; domain restricts to what a format can represent at all (DESIGN 9.1)"""
     for _ in range(100):
         r = rng.random()
-        if r < 0.35:
+        if r < 0.06:
+            w = rng.choice(SPECIAL)
+        elif r < 0.35:
             w = rng.choice(PLAIN)
         elif r < 0.5:
             w = rng.choice(BRACKET_WORDS)
@@ -63,7 +66,7 @@ def token_ok(w, domain):
 def en_token(rng, domain='any', attr_domain=None):
     from depccg.types import Token
     a = attr_domain or domain
-    return Token(word=hostile_token(rng, domain), pos=rng.choice(('NN', 'VBZ', 'DT', 'IN', ',', '.', '-LRB-', 'PRP$', 'XX')),
+    return Token(word=hostile_token(rng, domain), pos=rng.choice(('NN', 'VBZ', 'DT', 'IN', ',', '.', '-LRB-', 'PRP$', 'XX', '(', ')', '<sym>', '[', 'a>b')),
                  entity=rng.choice(('O', 'I-ORG', 'B-DATE', 'XX')), lemma=hostile_token(rng, a).lower(),
                  chunk=rng.choice(('XX', 'I-NP', 'B-VP')))
 
@@ -71,7 +74,8 @@ def en_token(rng, domain='any', attr_domain=None):
 def ja_token(rng, domain='ja'):
     from depccg.types import Token
     w = hostile_token(rng, domain)
-    return Token(word=w, surf=w, pos=rng.choice(('名詞', '動詞', '助詞', '記号')), pos1=rng.choice(('一般', '自立', '*', '格助詞')),
+    surf = w if rng.random() > 0.15 else hostile_token(rng, domain)      # e.g. a width-normalised word with the raw surface kept
+    return Token(word=w, surf=surf, pos=rng.choice(('名詞', '動詞', '助詞', '記号')), pos1=rng.choice(('一般', '自立', '*', '格助詞')),
                  pos2=rng.choice(('*', '一般')), pos3='*', inflectionForm=rng.choice(('*', '基本形', '連用形')),
                  inflectionType=rng.choice(('*', '一段', '五段・ラ行')), reading=rng.choice(('ネコ', '*')),
                  base=hostile_token(rng, domain))
